@@ -59,6 +59,7 @@ type Task struct {
 	Force      bool // once HoldUntil is reached, picked immediately
 	Poison     bool
 	exiting    bool
+	stallFor   time.Duration // set by the scheduler: sleep this long (fake time) before proceeding
 	noYield    int // >0: scheduling points are skipped (harness observation must not add interleavings)
 	PanicVal   any
 	PanicStack string
@@ -80,6 +81,7 @@ const (
 	DSelect = 's' // V = rotation offset for a select poll order
 	DRand   = 'r' // V = math.Float64bits of a random draw
 	DInt    = 'i' // V = harness integer choice
+	DStall  = 'z' // V = 0 no stall, else index+1 into Config.StallDurs: the picked task is descheduled for that long before it proceeds
 )
 
 type Decision struct {
@@ -109,6 +111,8 @@ type Config struct {
 	Horizon   time.Duration // fake time after which a blocked system is a stall
 	StepHook  func(step int) // called by the scheduler before each decision (fault-point sweeps); runs in scheduler context
 	CheckGoid bool
+	StallP    float64         // probability that a picked task is stalled (slow or descheduled goroutine) before it proceeds
+	StallDurs []time.Duration // candidate stall durations (fake time)
 }
 
 // Outcome of a run.
@@ -124,6 +128,7 @@ type Outcome struct {
 	Trace          []TraceEntry
 	TraceHash      uint64
 	Foreign        int
+	Stalls         int // injected stalls
 	TaskOverflow   bool // more tasks than the simulator tracks: the run is abandoned
 	Quiescent      time.Time // first instant at which every task had exited
 	End            time.Time
@@ -515,6 +520,23 @@ func (s *Sim) park(t *Task, site string, state int) {
 	s.mu.Unlock()
 	s.signal()
 	<-t.resume
+	for t.stallFor > 0 && !t.Poison {
+		// injected stall: the goroutine is descheduled here for a while; fake time may advance meanwhile
+		d := t.stallFor
+		t.stallFor = 0
+		s.mu.Lock()
+		t.State = StBlocked
+		t.observed = false
+		s.mu.Unlock()
+		raceEnable()
+		time.Sleep(d)
+		raceDisable()
+		s.mu.Lock()
+		t.State = StParked
+		s.mu.Unlock()
+		s.signal()
+		<-t.resume
+	}
 	raceEnable()
 	if t.Poison {
 		t.exiting = true
@@ -683,6 +705,9 @@ func (s *Sim) decide(k byte, n int, gen func() int64) int64 {
 		}
 		if k == DTask {
 			v = -1
+		}
+		if k == DStall {
+			v = 0
 		}
 	} else {
 		v = gen()
@@ -895,6 +920,23 @@ func (s *Sim) Run() *Outcome {
 			s.hash = (s.hash ^ uint64(pick.Site[i])) * 1099511628211
 		}
 		s.hash = (s.hash ^ uint64(pick.ID)) * 1099511628211
+		if s.cfg.StallP > 0 && len(s.cfg.StallDurs) > 0 && pick.Site != "start" {
+			nd := len(s.cfg.StallDurs)
+			v := s.decide(DStall, nd+1, func() int64 {
+				if s.rng.float() < s.cfg.StallP {
+					return int64(1 + s.rng.intn(nd))
+				}
+				return 0
+			})
+			if v < 0 || v > int64(nd) {
+				v = 0
+			}
+			s.settle(DStall, v)
+			if v > 0 {
+				pick.stallFor = s.cfg.StallDurs[v-1]
+				s.out.Stalls++
+			}
+		}
 		pick.State = StRunning
 		s.cur = pick
 		pick.resume <- struct{}{}
